@@ -33,6 +33,7 @@ def run(ctx):
     ctx.guard(rule_c, ctx, ix)
     ctx.guard(rule_d, ctx, ix)
     ctx.guard(rule_e, ctx, ix)
+    ctx.guard(rule_f, ctx, ix)
 
 
 def _concrete(f):
@@ -239,3 +240,69 @@ def rule_e(ctx, ix):
     ctx.describe(R, 'paired x / y expressions of the region classes agree up to the renaming x -> y', floor=50)
     common.check_xy_symmetry(ctx, R, ix.module('glue.core.roi'), XY_EXCEPTIONS, floor=50)
     common.check_xy_symmetry(ctx, R, ix.module('glue.utils.geometry'), {}, floor=4)
+
+
+NONNEG_FIELDS = ('radius_x', 'radius_y', 'radius', 'inner_radius', 'outer_radius')
+
+
+def _nonneg(e, env, depth=0):
+    """Sign domain {nonneg, unknown}: is the expression >= 0 for all values of its variables (radii are lengths)?"""
+    if depth > 6:
+        return False
+    if isinstance(e, ast.Constant):
+        return isinstance(e.value, (int, float)) and e.value >= 0
+    if isinstance(e, ast.Attribute):
+        return e.attr in NONNEG_FIELDS
+    if isinstance(e, ast.Name):
+        return e.id in env and _nonneg(env[e.id], env, depth + 1)
+    if isinstance(e, ast.Call):
+        fn = unparse(e.func)
+        if fn in ('abs', 'np.abs', 'np.fabs', 'np.hypot', 'np.sqrt', 'math.hypot', 'math.sqrt', 'np.absolute'):
+            return True
+        if fn in ('max', 'np.maximum', 'min', 'np.minimum') and e.args:
+            return all(_nonneg(a, env, depth + 1) for a in e.args) if fn in ('min', 'np.minimum') else any(_nonneg(a, env, depth + 1) for a in e.args)
+        return False
+    if isinstance(e, ast.BinOp) and isinstance(e.op, (ast.Add, ast.Mult, ast.Div)):
+        return _nonneg(e.left, env, depth + 1) and _nonneg(e.right, env, depth + 1)
+    if isinstance(e, ast.BinOp) and isinstance(e.op, ast.Pow):
+        return isinstance(e.right, ast.Constant) and e.right.value == 2 or _nonneg(e.left, env, depth + 1)
+    return False
+
+
+def rule_f(ctx, ix):
+    """The pre-selection box of a region is an interval [centre - d, centre + d] with d >= 0 (never inverted)."""
+    R = 'C08.f'
+    ctx.describe(R, 'pre-selection boxes: every interval is centre -/+ a half-extent that is non-negative for every parameter value', floor=6)
+    n = 0
+    for cq, c in sorted(ix.classes.items()):
+        if not cq.startswith('glue.core.roi.'):
+            continue
+        m = c.members.get('bounds')
+        f = m.func if m is not None else None
+        if f is None:
+            continue
+        env = {unparse(st.targets[0]): st.value for st in walk_no_nested(f.node)
+               if isinstance(st, ast.Assign) and isinstance(st.targets[0], ast.Name)}
+        for r in returns_of(f):
+            if not isinstance(r.value, (ast.List, ast.Tuple)):
+                continue
+            for iv in r.value.elts:
+                if not (isinstance(iv, (ast.List, ast.Tuple)) and len(iv.elts) == 2):
+                    continue
+                lo, hi = iv.elts
+                if not (isinstance(lo, ast.BinOp) and isinstance(lo.op, ast.Sub) and isinstance(hi, ast.BinOp) and isinstance(hi.op, ast.Add)
+                        and unparse(lo.left) == unparse(hi.left) and unparse(lo.right) == unparse(hi.right)):
+                    ctx.idiom(R, '%s `%s`' % (f.construct, unparse(iv)[:60]), 'the interval is centre -/+ half-extent', accepted=False, absent=False,
+                              detail_absent='', shape=unparse(iv), where=where(f, r))
+                    continue
+                n += 1
+                d = lo.right
+                ctx.ob(R, '%s `%s`' % (f.construct, unparse(iv)[:70]), 'the half-extent is non-negative whatever the parameters (angle) are',
+                       _nonneg(d, env),
+                       detail='%s returns the interval `%s` whose half-extent `%s` = `%s` can be negative (the sign of a cosine / sine, a '
+                              'difference): the box is then inverted or too small, the pre-selection drops points that lie inside the region '
+                              'and contains() answers False for them' % (f.construct, unparse(iv), unparse(d),
+                                                                        unparse(env[d.id]) if isinstance(d, ast.Name) and d.id in env else unparse(d)),
+                       where=where(f, r))
+    if n < 6:
+        raise AnalysisError('C08.f: only %d pre-selection intervals recognised' % n)
